@@ -112,6 +112,10 @@ let parse_op (toks : string list) : op =
 (* [classify toks model impl] is consulted on a mismatch: it names the known finding whose
    trigger predicate the current model state and operation satisfy, if any. It is evaluated
    on the state *before* the operation is applied to the model. *)
+(* raised by a machine when an operation is outside the usage contract under which the model is
+   compared (VersionFacts.in_contract): the rest of the case is not compared *)
+exception Out_of_contract
+
 type machine = { step : string list -> string; classify : string list -> string -> string -> string option;
                  dump : unit -> string }
 
@@ -192,6 +196,11 @@ let classify_m1 (st : mstate) (toks : string list) (model : string) (impl : stri
       let n = int_of_string v in
       let first = (match st.forest with (w, _) :: _ -> int_of_z w | [] -> 0) in
       if n < first && List.exists (fun w -> w <= n) (stale_candidates st) then finding else None
+  | "replaycs" :: _ when model = "ok" && impl = "err" ->
+      (* the replay walks the change sets from the first *listed* version: with a stale root key the
+         listing starts at a deleted version whose change set cannot be extracted *)
+      let first = (match st.forest with (w, _) :: _ -> int_of_z w | [] -> 0) in
+      if List.exists (fun w -> w < first) (stale_candidates st) then finding else None
   | [ "getv"; _; v ] when model = "nil" && (starts_with "b:" impl || impl = "err") ->
       let n = int_of_string v in
       let first = (match st.forest with (w, _) :: _ -> int_of_z w | [] -> 0) in
@@ -402,6 +411,14 @@ let make_m1 (params : string list) : machine =
   let fast = ref (cfg_fast params) in
   let rec step1 (toks : string list) : string =
         match toks with
+        | [ ("prune" | "lvfo") as o; n ]
+          when (let op = if o = "prune" then OPrune (z_of_string n) else OLvfo (z_of_string n) in
+                not (in_contractb !st op)
+                && (match m_step !st op with (_, XErr) -> false | _ -> true)) ->
+            (* accepted by the model but outside the contract (deleting the version the working tree
+               is based on, rolling back to version 0): not compared from here on *)
+            raise Out_of_contract
+        | "fault" :: "cold" :: rest -> "FL;" ^ step1 rest
         | "fault" :: rest -> "FL;" ^ step1 rest
         | "crash" :: rest -> "CR;" ^ step1 rest
         | [ "reopenat"; v; f ] ->
@@ -697,7 +714,7 @@ let machines : (string * (string list -> machine)) list ref =
 let split_ws s = List.filter (fun x -> x <> "") (String.split_on_char ' ' s)
 
 let () =
-  let cases = ref 0 and ops = ref 0 and mism = ref 0 and skipped = ref 0 in
+  let cases = ref 0 and ops = ref 0 and mism = ref 0 and skipped = ref 0 and ooc = ref 0 in
   let cur : machine option ref = ref None in
   let cur_id = ref "" in
   let lineno = ref 0 in
@@ -739,7 +756,13 @@ let () =
                | _ -> (line, None)
              in
              incr ops;
-             let got = try m.step (split_ws opstr) with Failure msg -> "modelfail:" ^ msg in
+             let got = try m.step (split_ws opstr) with
+               | Failure msg -> "modelfail:" ^ msg
+               | Out_of_contract -> "out-of-contract" in
+             if got = "out-of-contract" then begin
+               incr ooc; cur := None;
+               Printf.printf "OUTOFCONTRACT case=%s line=%d op=[%s]\n" !cur_id !lineno opstr
+             end else
              (match expected with
               | None -> if echo then Printf.printf "%s => %s\n" opstr got else incr skipped
               | Some e ->
@@ -757,5 +780,5 @@ let () =
        end
      done
    with End_of_file -> ());
-  Printf.printf "SUMMARY cases=%d ops=%d mismatches=%d known=%d unchecked=%d\n" !cases !ops !mism !nknown !skipped;
+  Printf.printf "SUMMARY cases=%d ops=%d mismatches=%d known=%d unchecked=%d outofcontract=%d\n" !cases !ops !mism !nknown !skipped !ooc;
   exit (if !mism > 0 then 1 else 0)
